@@ -3,8 +3,8 @@ from props import seqcases, C02 as _C02, C03 as _C03
 
 LEVEL = "other"
 TECHNIQUE = "bounded inductive contract check (CBMC) on the real container operations over an element model with a finalisation ledger / exceptional postconditions"
-LEVEL_TEXT = 'The same bounded inductive harnesses as C02/C04 with a finalisation ledger in the element model: every contained element is live, held once, finalised exactly once on removal/replacement/clear/delete, and never by an internal move; copies are deep. Bounded by the container sizes of C02/C04; Tree not yet under contract.'
-NOTE = 'element model = a type with constructor, assignment and destructor owning a resource (ledger tokens); Box sharing by shallow assignment is outside the model'
+LEVEL_TEXT = 'The C02/C03/C04 bounded inductive harnesses with a finalisation ledger in the element model (every constructed element holds a token; assign onto zeroed memory issues it, destruct retires it, tokens travel with the bytes): after every Array, List, Table and Tree operation every contained element is live and held once, removal / replacement / truncation / clear / delete finalise exactly the elements they drop, once each, and internal moves (growth, shrink, rehash, robin-hood displacement, rotation, predecessor copy) construct and finalise nothing; assign between containers is deep. Bounded by the container sizes of C02/C03/C04.'
+NOTE = 'element model = a type with constructor, assignment and destructor owning a resource; Box sharing by shallow Box_Assign is outside the model; Tuple owns nothing and is excluded'
 EXPLANATION = LEVEL_TEXT
 TRUSTED = []
 
